@@ -212,6 +212,13 @@ def run(ctx):
                 add('directory', '/*', '/' + enc, ('dir', d, True))
             add('serve_dir', '/*', '/' + enc + ('/' if d else ''), ('dirslash', d, True))
             add('directory', '/*', '/' + enc + ('/' if d else ''), ('dirslash', d, True))
+        # library serve_file: the configured file and nothing else, whatever the request asks for (oracle only, no model)
+        for f in list(files)[:3]:
+            for uri in ('/', '/' + f, '/../secret.txt'):
+                lines.append('static serve_file %s %s %s' % (desc, hx('www/' + f), hx(uri)))
+                meta.append(('serve_file', 'www/' + f, uri, files, dirs, canary, ('servefile', f, True)))
+        lines.append('static serve_file %s %s %s' % (desc, hx('www/no-such-file.txt'), hx('/')))
+        meta.append(('serve_file', 'www/no-such-file.txt', '/', files, dirs, canary, ('servefile', None, True)))
         # escape battery: every spelling of "go up one level" towards the two canaries, from the root and from sub-directories
         ups = ['..', '%2e%2e', '%2E%2E', '.%2e', '%2e.', '..%2f..', '%2e%2e%2f', '..%5c', '%c0%ae%c0%ae', '....', '.../..', '..;', '%252e%252e']
         starts = [''] + [d + '/' for d in list(dirs)[:2]]
@@ -276,6 +283,15 @@ def run(ctx):
                 ctx.report(case, b[:300], 'only files under the served directory', cls='static-escape', failing_input=True,
                            what='%s returned bytes of a file outside the directory for %r' % (h, uri))
                 continue
+        if kind == 'servefile':
+            want = '404' if target is None else '200 ct=%s body=%s' % (
+                'none' if expected_ct(target, False) is None else expected_ct(target, False).hex(), files[target].hex())
+            if b != want:
+                ctx.report(case, b[:300], want[:300], cls='static-serve-file', failing_input=True,
+                           what='serve_file must return its configured file (or 404 when it is missing), whatever is requested')
+            else:
+                ctx.mark_nontrivial(line)
+            continue
         if kind == 'file' and clean:
             want_ct = expected_ct(target, h == 'directory')
             want = '200 ct=%s body=%s' % ('none' if want_ct is None else want_ct.hex(), files[target].hex())
@@ -302,7 +318,8 @@ def run(ctx):
         if kind != 'adv' or '%' in uri or '..' in uri or b != '404':
             ctx.mark_nontrivial(line)
     # the tokio runtime has its own copies of serve_dir / serve_as_file_path (humphrey/src/tokio/handlers.rs): same model
-    idx = [i for i, l in enumerate(lines) if l.startswith('static serve_dir ') or l.startswith('static serve_as_file_path ')]
+    idx = [i for i, l in enumerate(lines) if l.startswith('static serve_dir ') or l.startswith('static serve_as_file_path ') or
+           l.startswith('static serve_file ')]
     if ctx.tier != 'thorough':
         idx = idx[::2]
     ctx.tokio_twin([lines[i] for i in idx], [m[i] for i in idx], 'static-mismatch-tokio',
